@@ -104,6 +104,8 @@ impl Shell {
             if let Some(job) = self.jobs.get_mut(&i) {
                 if job.gid == gid {
                     job.pids_stopped.remove(&pid);
+                    // a member runs again: the job is not stopped as a whole
+                    job.status = "Running".to_string();
                     idx_found = i;
                     break;
                 }
@@ -224,7 +226,12 @@ impl Shell {
                     if let Some(i_pid) = x.pids.iter().position(|&p| p == pid) {
                         x.pids.remove(i_pid);
                     }
+                    x.pids_stopped.remove(&pid);
                     empty_pids = x.pids.is_empty();
+                    // the members that are left may all be stopped
+                    if !empty_pids && x.all_members_stopped() {
+                        x.status = "Stopped".to_string();
+                    }
                     break;
                 }
             }
